@@ -151,6 +151,16 @@ def cases_tx_grid(tier):
             for n in count_bounds:
                 yield mk(in0={"witness": [""] * n})
                 yield mk(in0={"witness": ["01"] * n})
+            # single strings far above what generated cases reach but well inside what the wire format carries (a witness
+            # item is bounded by the 4,000,000-unit block weight only; Core's deserialiser accepts strings to 32 MiB)
+            huge = [1000001, 2**20 + 1, 2**21, 2**21 + 1, 3999000] + ([2**22 + 1, 2**24 + 1] if tier == "thorough" else [])
+            if coin == "BTC":
+                for n in huge:
+                    if wit:
+                        yield mk(in0={"witness": ["", [n, 3]]})
+                    else:
+                        yield mk(in0={"script": [n, 4]})
+                        yield mk(outs=[{"value": 5, "script": [n, 6]}])
 
 
 # ------------------------------------------------------------------ spendables
